@@ -13,7 +13,7 @@ EL = {"i8": 1, "i16": 2, "i32": 4, "i64": 8}
 #: storage bytes of element types whose width is not a multiple of 8 (FixedBitwidthType.size = ceil(width / 8))
 EL_ODD = {"i1": 1, "i4": 1, "i12": 2}
 RULE = (
-    "cases: one memref.copy between two layouts of equal tile bounds: rank 1-4, tile depth 1-3, bounds 1-4, element widths 8/16/32/64; each "
+    "cases: one memref.copy (in 15% of the static cases two, the second with the same shape and element type but another tiling, possibly re-using a plain type of the first) between two layouts of equal tile bounds: rank 1-4, tile depth 1-3, bounds 1-4, element widths 8/16/32/64; each "
     "side is row-major (no layout), strided<[..], offset> (permuted dimensions, padding, static or dynamic strides/offset) or #tsl.tsl (any "
     "step order, padding, offset); sub-family 'dyn': dynamic outermost bound of one dimension (any) resolved at run time to 1..4; sub-family "
     "'dyn2' (15%): 1-2 dynamic dimensions anywhere in the memory order, '?' strides of strided layouts holding padded or capacity values at "
@@ -229,7 +229,37 @@ def gen_case(rng, tier):
     dd = rng.choice([0, 0] + list(range(rank))) if dyn else 0
     case = {"tb": tb, "el": rng.choice(list(EL)), "dyn": dyn, "dyn_dim": dd, "sides": [gen_side(rng, tb, dyn, dd) for _ in range(2)]}
     case["env"] = {"base": [0x1000 + 8 * rng.randrange(16), 0x20000 + 8 * rng.randrange(16)], "seed": rng.randrange(1 << 30), "shuffle": rng.random() < 0.8, "dyn_bound": rng.choice([1, 2, 3, 4])}
+    if not dyn and rng.random() < 0.15:
+        # a second copy in the same function: same shape and element type, another tiling; one plain (non-TSL) side of the
+        # first copy may appear again with exactly the same type
+        shape = shape_of(tb)
+        tb2 = [refactor(rng, n) for n in shape]
+        second = {"tb": tb2, "sides": [gen_side(rng, tb2, False, 0) for _ in range(2)]}
+        plain = [(i, sd) for i, sd in enumerate(case["sides"]) if sd["kind"] != "tsl"]
+        if plain and rng.random() < 0.75:
+            i, sd = rng.choice(plain)
+            sd = dict(sd)
+            if sd["kind"] == "strided":
+                sd["steps"] = strided_steps(tb2, sd["dimstrides"])
+            else:
+                sd["steps"] = row_major_steps(tb2)
+            second["sides"][rng.choice([i, i, 1 - i])] = sd
+        case["second"] = second
     return case
+
+
+def refactor(rng, n):
+    """tile bounds (depth 1-3) whose product is n"""
+    out = []
+    while n > 1 and len(out) < 2 and rng.random() < 0.6:
+        divs = [d for d in (2, 3, 4) if n % d == 0 and d < n]
+        if not divs:
+            break
+        d = rng.choice(divs)
+        out.append(d)
+        n //= d
+    out.insert(0, n)
+    return out
 
 
 def side_type(case, side):
@@ -249,8 +279,19 @@ def side_type(case, side):
     return f"memref<{sh}x{case['el']}{lay}>"
 
 
+def second_case(case):
+    return dict(case, tb=case["second"]["tb"], sides=case["second"]["sides"], second=None, env=dict(case["env"], base=[b + 0x40000 for b in case["env"]["base"]]))
+
+
 def emit(case):
     a, b = (side_type(case, s) for s in case["sides"])
+    if case.get("second"):
+        c2 = second_case(case)
+        c, d = (side_type(c2, s) for s in c2["sides"])
+        return (
+            f'builtin.module {{\n  func.func @f(%a : {a}, %b : {b}, %c : {c}, %d : {d}) {{\n    "memref.copy"(%a, %b) : ({a}, {b}) -> ()\n'
+            f'    "memref.copy"(%c, %d) : ({c}, {d}) -> ()\n    func.return\n  }}\n}}'
+        )
     return f'builtin.module {{\n  func.func @f(%a : {a}, %b : {b}) {{\n    "memref.copy"(%a, %b) : ({a}, {b}) -> ()\n    func.return\n  }}\n}}'
 
 
@@ -282,9 +323,12 @@ def execute(case):
     m = ByteMachine(S, seed=env["seed"], shuffle_rows=env["shuffle"])
     descs = []
     lay = []
-    for i, side in enumerate(case["sides"]):
-        tb, steps = runtime_layout(case, side)
-        lay.append((tb, steps))
+    copies = [case] + ([second_case(case)] if case.get("second") else [])
+    for which, cs in enumerate(copies):
+      env = cs["env"]
+      for i, side in enumerate(cs["sides"]):
+        tb, steps = runtime_layout(cs, side)
+        lay.append((cs, tb, steps))
         shape = shape_of(tb)
         fp = m.src_fp if i == 0 else m.dst_fp
         for idx in all_indices(shape):
@@ -293,9 +337,10 @@ def execute(case):
                 if (a + j) in fp:
                     raise RuntimeError("generator produced a self-overlapping layout")
                 fp.add(a + j)
-                m.mem[a + j] = ("src", idx, j) if i == 0 else ("poison",)
+                m.mem[a + j] = ("src", which, idx, j) if i == 0 else ("poison",)
         dstr = [steps[d][-1] for d in range(len(tb))]
         descs.append(Desc(env["base"][i], side["off"] if side["kind"] == "strided" else 0, shape, dstr, eb))
+    env = case["env"]
     if m.src_fp & m.dst_fp:
         raise RuntimeError("footprints overlap")
     out["runs"] = 1
@@ -305,14 +350,15 @@ def execute(case):
     except Violation as v:
         out.update(status="violation", oracle=v.oracle, message=v.message)
         return out
-    tb, steps = lay[1]
-    side = case["sides"][1]
-    for idx in all_indices(shape_of(tb)):
-        a = env["base"][1] + address(idx, tb, steps, side["off"]) * eb
-        for j in range(eb):
-            if m.mem[a + j] != ("src", idx, j):
-                out.update(status="violation", oracle="element-position", message=f"logical element {idx} byte {j}: destination address {a + j:#x} holds {m.mem[a + j]!r}")
-                return out
+    for which, cs in enumerate(copies):
+        _, tb, steps = lay[2 * which + 1]
+        side = cs["sides"][1]
+        for idx in all_indices(shape_of(tb)):
+            a = cs["env"]["base"][1] + address(idx, tb, steps, side["off"]) * eb
+            for j in range(eb):
+                if m.mem[a + j] != ("src", which, idx, j):
+                    out.update(status="violation", oracle="element-position", message=f"copy {which}: logical element {idx} byte {j}: destination address {a + j:#x} holds {m.mem[a + j]!r}")
+                    return out
     out["steps"] = m.steps
     merge(out["probes"], m.probes)
     merge(out["faults"], m.faults)
@@ -368,6 +414,9 @@ def shrink(case):
         yield dict(case, el="i8")
     if case["env"]["shuffle"]:
         yield dict(case, env=dict(case["env"], shuffle=False))
+    if case.get("second"):
+        yield {k: v for k, v in case.items() if k != "second"}
+        yield dict(second_case(case), env=case["env"])
     for i, s in enumerate(case["sides"]):
         if s["off"]:
             ns = list(case["sides"])
